@@ -141,10 +141,17 @@ class CxxModule:
                 self.funcs.setdefault('%s/%d' % (q, len(f.params)), ns)
                 self.overloads.setdefault('%s/%d' % (q, len(f.params)), []).append(ns)
 
-    def select(self, qname, nargs, argtypes):
-        """the overload / instantiation whose reference parameters have the integer types of the arguments bound to them"""
+    def select(self, qname, nargs, argtypes, raw=None):
+        """the overload / instantiation the compiler resolved the call to (the declaration the call expression refers to), else the
+        one whose reference parameters have the integer types of the arguments bound to them"""
         from .cxx import int_type
         cands = self.overloads.get('%s/%d' % (qname, nargs), [])
+        if raw is not None and len(cands) > 1:
+            did = _callee_decl(raw)
+            if did is not None:
+                for ns in cands:
+                    if ns.f.node.get('id') == did:
+                        return ns
         for ns in cands:
             ok = True
             for i in ns.byref:
@@ -154,6 +161,21 @@ class CxxModule:
             if ok:
                 return ns
         return cands[0] if cands else None
+
+
+def _callee_decl(raw):
+    """id of the function declaration a clang call expression was resolved to, if it names one"""
+    inner = raw.get('inner') or []
+    if raw.get('kind') not in ('CallExpr', 'CXXMemberCallExpr', 'CXXOperatorCallExpr') or not inner:
+        return None
+    c = inner[0]
+    while c.get('kind') in ('ImplicitCastExpr', 'ParenExpr') and c.get('inner'):
+        c = c['inner'][-1]
+    if c.get('kind') == 'DeclRefExpr':
+        return (c.get('referencedDecl') or {}).get('id')
+    if c.get('kind') == 'MemberExpr':
+        return c.get('referencedMemberDecl')
+    return None
 
 
 def _re_word(word, text):
@@ -259,7 +281,10 @@ class AEval:
             cur = env[e.a[0]]
             return cur if isinstance(cur, Ref) and env.get('\x00ref:' + e.a[0]) else Ref(env, e.a[0])
         if e.k == 'index':
-            return Ref(self.ev(e.a[0], env, depth), self.ev(e.a[1], env, depth))
+            b_, i_ = self.ev(e.a[0], env, depth), self.ev(e.a[1], env, depth)
+            if isinstance(b_, Ref) and isinstance(b_.box, list) and isinstance(i_, int):
+                return b_.moved(i_)          # p[i] with p a pointer into an array
+            return Ref(b_, i_)
         if e.k == 'field':
             o = self.ev(e.a[0], env, depth)
             if isinstance(o, AObj):
@@ -457,12 +482,19 @@ class AEval:
         elif tgt.k == 'index':
             o = self.ev(tgt.a[0], env, depth)
             i = self.ev(tgt.a[1], env, depth)
+            if isinstance(o, Ref) and isinstance(o.box, list) and isinstance(i, int):
+                o.moved(i).set(self._by_value(tgt, v))           # p[i] = v with p a pointer into an array
+                return
+            if self.typed and isinstance(o, list) and isinstance(i, int) and i < 0:
+                raise IndexError('negative subscript')
             o[i] = self._by_value(tgt, v)
         elif tgt.k == 'init' and tgt.a[0] in ('tuple', 'list'):
             for t, x in zip(tgt.a[1], v):
                 self.store(t, x, env, depth)
         elif tgt.k == 'deref':
             p = self.ev(tgt.a[0], env, depth)
+            if self.typed and isinstance(p, list):
+                p = Ref(p, 0)            # a pointer that still is the array it was initialised with
             if not isinstance(p, Ref):
                 raise AnalysisError('abstract evaluation: store through %r at %s' % (p, tgt.loc))
             p.set(v)
@@ -493,6 +525,8 @@ class AEval:
                     l = Ref(l, 0)
                 if isinstance(r, list) and (isinstance(l, (int, Ref))) and not isinstance(l, bool):
                     r = Ref(r, 0)
+                if isinstance(l, list) and isinstance(r, list) and op != '+':
+                    l, r = Ref(l, 0), Ref(r, 0)          # two pointers that still are the arrays they were initialised with
             if isinstance(l, Ref) or isinstance(r, Ref):
                 # pointers into an array: p + k, k + p, p - k, p - q, and the comparisons of two pointers into one array
                 if op == '+' and isinstance(l, Ref) and isinstance(r, int):
@@ -591,6 +625,13 @@ class AEval:
             return env['self']
         if k == 'memfn':
             return FnRef(a[0], a[1])             # pointer to a member function (name, number of parameters)
+        if k == 'opaque' and a and a[0] == 'countof' and len(a) > 1:
+            v = self.ev(a[1], env, depth)        # sizeof(array) / sizeof(array[0]) of an array whose bound is its initialiser list
+            if isinstance(v, Ref):
+                v = v.get()
+            if not isinstance(v, list):
+                raise AnalysisError('abstract evaluation: element count of a value that is not an array at %s' % e.loc)
+            return len(v)
         if k == 'field':
             o = self.ev(a[0], env, depth)
             if isinstance(o, Ref):
@@ -662,7 +703,10 @@ class AEval:
         if k == 'addr':
             t = a[0]
             if t.k == 'index':
-                return Ref(self.ev(t.a[0], env, depth), self.ev(t.a[1], env, depth))
+                b_, i_ = self.ev(t.a[0], env, depth), self.ev(t.a[1], env, depth)
+                if isinstance(b_, Ref) and isinstance(b_.box, list) and isinstance(i_, int):
+                    return b_.moved(i_)          # &p[i] with p a pointer into an array
+                return Ref(b_, i_)
             if t.k == 'field':
                 o = self.ev(t.a[0], env, depth)
                 if isinstance(o, Ref):
@@ -704,12 +748,14 @@ class AEval:
             if self.typed and isinstance(a[0], str) and getattr(self.module, 'lib', None) is not None:
                 # C++: a value of class type built by one of its constructors (member initialisers are stores to this.field)
                 lib = self.module.lib
-                cls = a[0].replace('const ', '').strip()
+                cls = a[0].replace('const ', '').replace('(anonymous namespace)', '(anon)').strip()
                 args = [self.ev(x, env, depth) for x in a[1]]
                 try:
                     flds = lib.fields(cls)
                 except Exception:
                     flds = None
+                if flds == [] and not args and lib.classes.get(cls):
+                    return AObj({}, cls=cls)            # a class without data members (a function object)
                 if not flds and '<' in cls:
                     # a class nested in a template instantiation is indexed under the name of the template
                     bare, depth_ = [], 0
@@ -722,6 +768,8 @@ class AEval:
                             bare.append(ch)
                     try:
                         flds = lib.fields(''.join(bare))
+                        if flds == [] and not args and lib.classes.get(''.join(bare)):
+                            return AObj({}, cls=cls)        # keeps the arguments of the instantiation in its class name
                         cls = ''.join(bare)
                     except Exception:
                         flds = None
@@ -848,7 +896,7 @@ class AEval:
                     while y.k == 'cast':
                         y = y.a[2]
                     at.append(env.get('\x00ty:' + y.a[0]) if y.k == 'var' else None)
-                callee = self.module.select(name, len(args_e), at)
+                callee = self.module.select(name, len(args_e), at, raw=getattr(e, 'raw', None))
                 if callee is not None:
                     args = [self.ref_of(x, env, depth) if i in callee.byref else self.ev(x, env, depth) for i, x in enumerate(args_e)]
                     return self.call_function(name, args, depth + 1, recv=recv, chosen=callee)
@@ -902,8 +950,10 @@ class AEval:
                     while y.k == 'cast':
                         y = y.a[2]
                     at.append(env.get('\x00ty:' + y.a[0]) if y.k == 'var' else None)
-                callee = self.module.select(name, len(args_e), at)
+                callee = self.module.select(name, len(args_e), at, raw=getattr(e, 'raw', None))
                 cands = self.module.overloads.get('%s/%d' % (name, len(args_e)), [])
+                if callee is not None and len(cands) > 1 and getattr(e, 'raw', None) is not None and _callee_decl(e.raw) == callee.f.node.get('id'):
+                    cands = [callee]             # the compiler's own resolution
                 if len(cands) > 1 and not any(c_.byref for c_ in cands):
                     # instantiations / overloads that differ in a parameter of class type: the one that takes the class of the argument
                     vals = [self.ev(x, env, depth) for x in args_e]
@@ -922,6 +972,8 @@ class AEval:
             if '::operator' in name and args_e:
                 # a member operator written as a call: the object is the first operand
                 mem = self.module.funcs.get('%s/%d' % (name, len(args_e) - 1))
+                if mem is not None and hasattr(self.module, 'select') and len(self.module.overloads.get('%s/%d' % (name, len(args_e) - 1), [])) > 1:
+                    mem = self.module.select(name, len(args_e) - 1, [], raw=getattr(e, 'raw', None)) or mem
                 if mem is not None and (callee is None or len(callee.params) != len(args_e)):
                     obj = self.ev(args_e[0], env, depth)
                     if isinstance(obj, Ref):
